@@ -93,6 +93,15 @@ type kOuterIface struct {
 // a defined type over plush.HelperContext
 type kMyHC plush.HelperContext
 
+// error types with value receivers that are neither pointers nor interfaces
+type kValErr struct{ Msg string }
+
+func (e kValErr) Error() string { return e.Msg }
+
+type kStrErr string
+
+func (e kStrErr) Error() string { return string(e) }
+
 type kEmbHC struct{ plush.HelperContext }
 
 // plain data that promotes String() / HTML() from an embedded member that is nil
@@ -278,6 +287,12 @@ func kindValue(kind string) (interface{}, bool) {
 		return kEmbHTMLer{}, true
 	case "ptr_struct_embeds_nil_duration":
 		return &kEmbDur{Name: "d"}, true
+	case "func_valerr_zero":
+		return func() (string, kValErr) { return "v", kValErr{} }, true
+	case "func_valerr_set":
+		return func() (string, kValErr) { return "", kValErr{Msg: "bad"} }, true
+	case "func_strerr":
+		return func() (string, kStrErr) { return "", kStrErr("bad") }, true
 	case "func_array3":
 		return func(a [3]int) string { return fmt.Sprint(a) }, true
 	case "func_myhc":
